@@ -19,7 +19,7 @@ func checkC12(c *an.Ctx) {
 	c.Rule("C12.3", "scheduler (E3/E4): Scheduler.Cancel stores the flag before cancelling the runner; the flag is loaded on every pass before any launch; a cancelled run still waits for its stages")
 	c.Rule("C12.4", "an interrupted command is fatal (E2): the rows 'not an exit status' of the job-walk table mark the task errored and return the error, with and without allow_failure")
 	c.Rule("C12.5", "how a running command is stopped (library summary, option table): every interp.New in the module is given options from the closed set StdIO / Env / Dir / Params / OpenHandler, and an ExecHandler only if it is interp.DefaultExecHandler with a positive constant grace period — the library default interrupts the command, lets it stop its own children and kills it after the grace period; with a non-positive period the command is killed outright, its children are orphaned holding the output pipes, and the interpreter (and with it Run and Cancel) waits for them")
-	c.Summaries = append(c.Summaries, "mvdan.cc/sh/v3@v3.1.1 interp.DefaultExecHandler(d): on context cancellation sends os.Interrupt, then Kill after d; with d <= 0 sends Kill at once (read in interp/handler.go); interp.New installs DefaultExecHandler(2s)")
+	c.Summaries = append(c.Summaries, "mvdan.cc/sh/v3@v3.1.1 interp.DefaultExecHandler(d): on context cancellation sends os.Interrupt, then Kill after d; with d <= 0 sends Kill at once (read in interp/handler.go); interp.New installs DefaultExecHandler(2s)", "os/exec: a Stdin that is not an *os.File is copied to the child by a goroutine, and Cmd.Wait returns only after that goroutine has finished (package documentation of Cmd.Stdin)")
 	c.NotDecided = append(c.NotDecided, "promptness in wall-clock terms", "how the interpreter kills children", "absence of deadlock in general (only this protocol's shape)")
 	p := c.P
 	r := resolveRunner(c, "C12.0")
@@ -165,6 +165,45 @@ func interpOptions(c *an.Ctx, rule string) {
 						_ = good
 					default:
 						bad = append(bad, "option "+of.Name()+" is outside the reviewed set")
+					}
+				}
+			}
+			// the command's standard input is the reader the executor was given, not a wrapper of it: os/exec hands
+			// an *os.File to the child as it is, but for any other reader it starts a copying goroutine and Wait
+			// waits for it — a wrapper around a pipe or terminal that never reaches EOF keeps the killed command's
+			// Wait, and with it Run and Cancel, from returning
+			for _, o := range opts {
+				if o == nil {
+					continue
+				}
+				for _, src := range an.Sources(o) {
+					oc, ok := src.(*ssa.Call)
+					if !ok || oc.Call.StaticCallee() == nil || oc.Call.StaticCallee().Name() != "StdIO" || len(oc.Call.Args) < 1 {
+						continue
+					}
+					for _, in := range an.Sources(oc.Call.Args[0]) {
+						switch x := in.(type) {
+						case *ssa.Parameter, *ssa.Const:
+						case *ssa.MakeInterface:
+							_ = x // a reader of the executor's own making (a finite one ends the copy at EOF)
+							if wc, isCall := an.Resolve(x.X).(*ssa.Call); isCall {
+								for _, a := range wc.Call.Args {
+									for _, as := range an.Sources(a) {
+										if prm, isP := as.(*ssa.Parameter); isP && prm.Parent() == fn {
+											bad = append(bad, "the interpreter's standard input is "+an.ShortCallee(&wc.Call)+"(…) wrapped around the reader the executor was given: for anything but an *os.File os/exec copies stdin in a goroutine that Wait waits for, so a command killed on cancellation is not reaped while the wrapped pipe or terminal stays open")
+										}
+									}
+								}
+							}
+						case *ssa.Call:
+							for _, a := range x.Call.Args {
+								for _, as := range an.Sources(a) {
+									if prm, isP := as.(*ssa.Parameter); isP && prm.Parent() == fn {
+										bad = append(bad, "the interpreter's standard input is "+an.ShortCallee(&x.Call)+"(…) wrapped around the reader the executor was given: for anything but an *os.File os/exec copies stdin in a goroutine that Wait waits for, so a command killed on cancellation is not reaped while the wrapped pipe or terminal stays open")
+									}
+								}
+							}
+						}
 					}
 				}
 			}
@@ -535,6 +574,24 @@ func serviceCommandSite(fn *ssa.Function, job ssa.Value) bool {
 		return false
 	}
 	for _, src := range srcs {
+		// a job built here: a literal, or the result of a constructor of the job's package called here
+		if call, isCall := src.(*ssa.Call); isCall && call.Parent() == fn && an.TypeIs(call.Type(), "pkg/executor", "Job") {
+			ctor := call.Call.StaticCallee()
+			fresh := ctor != nil && ctor.Blocks != nil && inPkgs("pkg/executor")(ctor)
+			if fresh {
+				for _, ret := range an.Returns(ctor) {
+					for _, rs := range an.ResolveAll(an.RetVal(ret, 0)) {
+						if ra, isAl := rs.(*ssa.Alloc); !isAl || ra.Parent() != ctor {
+							fresh = false
+						}
+					}
+				}
+			}
+			if fresh {
+				continue
+			}
+			return false
+		}
 		al, ok := src.(*ssa.Alloc)
 		if !ok || al.Parent() != fn || !an.TypeIs(al.Type(), "pkg/executor", "Job") {
 			return false
